@@ -121,8 +121,10 @@ func buildBlocks(sc *Scenario) (*core.Universe, []block) {
 	bl := make([]block, len(sc.Blocks))
 	height := make([]int, len(sc.Blocks))
 	for i := range sc.Blocks {
-		if i > 0 {
+		if i > 0 && sc.Blocks[i].Parent >= 0 {
 			height[i] = height[sc.Blocks[i].Parent] + 1
+		} else if i > 0 {
+			height[i] = 1 // unknown parent: an orphan root
 		}
 		bl[i] = block{Raw: u.Raw[i], Hash: u.H[i], Height: height[i]}
 	}
@@ -313,6 +315,12 @@ func (w *world) checkRequests() {
 				// (in the misbehaviour scenarios of C07 a contradicting header may sit at the checkpoint
 				// height, so the next checkpoint can lie at or below the request's start)
 				if cp.Hash.String() == stop && (int(cp.Height) > first || w.sc.BadBlock > 0) {
+					okStop = true
+				}
+			}
+			// a request that follows a block announcement may stop at the announced block
+			if k := n.heightOf(g.HashStop); !okStop && k > first {
+				if _, stored := labels[stop]; !stored {
 					okStop = true
 				}
 			}
